@@ -3,6 +3,7 @@
 package main
 
 import (
+	"encoding/json"
 	"flag"
 	"fmt"
 	"os"
@@ -19,6 +20,10 @@ func main() {
 	tier := flag.String("tier", "quick", "quick|thorough")
 	verif := flag.String("verif", "/verif", "verif directory (evidence, replays, known findings)")
 	out := flag.String("out", "", "directory for evidence/ and replays/ (default: the verif directory)")
+	digest := flag.String("digest", "", "write the observation digest of the run to this file")
+	reportAs := flag.String("report-as", "", "report violations under this property id")
+	buildTags := flag.String("build-tags", "", "build tags this binary was built with (recorded in replay files)")
+	noEvidence := flag.Bool("no-evidence", false, "do not write an evidence file")
 	replay := flag.String("replay", "", "replay file")
 	deadline := flag.Duration("deadline", 0, "internal deadline (0 = none)")
 	flag.Parse()
@@ -47,6 +52,37 @@ func main() {
 		ctx.Deadline = time.Now().Add(*deadline)
 	}
 	ctx.InitShard()
-	c.Run(ctx)
+	ctx.DigestFile, ctx.ReportAs, ctx.BuildTags, ctx.NoEvidence = *digest, *reportAs, *buildTags, *noEvidence
+	runGuarded(ctx, *prop, c.Run)
 	ctx.Finish(*verif)
+}
+
+// runGuarded converts a library panic during the construction of a check's
+// alphabets (outside any single case) into a violation of that property; a
+// panic raised by harness code is a machinery error (exit 2).
+func runGuarded(ctx *core.Ctx, prop string, run func(*core.Ctx)) {
+	defer func() {
+		if r := recover(); r != nil {
+			f := core.PanicToFail(r)
+			ctx.ReportViolation(prop+"/library-panic", 0, map[string]string{"prop": prop, "tier": ctx.Tier}, f.Msg)
+		}
+	}()
+	run(ctx)
+}
+
+func init() {
+	for id := range checks.Registry {
+		id := id
+		core.RegisterReplayer(id+"/library-panic", func(json.RawMessage) (f *core.Fail) {
+			defer func() {
+				if r := recover(); r != nil {
+					f = core.PanicToFail(r)
+				}
+			}()
+			scratch := core.NewCtx(id, "quick", 0, checks.Registry[id].Level)
+			scratch.Deadline = time.Now().Add(2 * time.Minute)
+			checks.Registry[id].Run(scratch)
+			return nil
+		})
+	}
 }
